@@ -171,6 +171,27 @@ def rule_c(ctx):
     ctx.floor(R, 1)
 
 
+def expand_in(loop, expr, stop=()):
+    """expr with the loop body's once-bound locals replaced by their definitions."""
+    import copy
+
+    defs, cnt = {}, {}
+    for s_ in loop.body:
+        if isinstance(s_, ast.Assign) and len(s_.targets) == 1 and isinstance(s_.targets[0], ast.Name):
+            cnt[s_.targets[0].id] = cnt.get(s_.targets[0].id, 0) + 1
+            defs[s_.targets[0].id] = s_.value
+
+    class Sub(ast.NodeTransformer):
+        def __init__(self, seen):
+            self.seen = seen
+
+        def visit_Name(self, n):
+            if isinstance(n.ctx, ast.Load) and cnt.get(n.id) == 1 and n.id not in self.seen and n.id not in stop:
+                return Sub(self.seen | {n.id}).visit(copy.deepcopy(defs[n.id]))
+            return n
+    return Sub(frozenset()).visit(copy.deepcopy(expr))
+
+
 def rule_d(ctx):
     R = "C11.d"
     ctx.rule(R, "refinement and coarsening are the factor-2 pair: refinement repeats twice along each spatial axis; coarsening combines the "
@@ -222,10 +243,17 @@ def rule_d(ctx):
                f"`{norm(s)[:70]}` is computed and dropped: the combination does not use it", s)
     # the length tested for oddness must be read from the running array, on the loop axis
     odd = [n for n in ast.walk(lp) if isinstance(n, ast.If) and isinstance(n.test, ast.Compare) and isinstance(n.test.left, ast.BinOp) and isinstance(n.test.left.op, ast.Mod)]
-    ctx.need(len(odd) == 1 and isinstance(odd[0].test.left.left, ast.Name), "uniform_refinement: odd-length test not found")
-    al = assigned.get(odd[0].test.left.left.id)
-    ctx.ob(R, f.qname, "the axis length is read from the running array", al is not None and norm(al.value) == f"{ARR}.shape[{norm(lp.target)}]",
-           f"{norm(al) if al is not None else None}: after the first coarsened axis or level the running array is shorter than the original image", al or lp)
+    ctx.need(len(odd) == 1, "uniform_refinement: odd-length test not found")
+    # every length the coarsening step uses (parity test, half length) must be that of the running array on the loop axis
+    want_len = f"{ARR}.shape[{norm(lp.target)}]"
+    par = norm(expand_in(lp, odd[0].test.left.left, (ARR,)))
+    ctx.ob(R, f.qname, "the parity test reads the length of the running array", par == want_len,
+           f"`{norm(odd[0].test)}` tests {par}: after the first coarsened level the running array is shorter than the original image, an odd intermediate length is not seen", odd[0])
+    al = assigned.get(odd[0].test.left.left.id) if isinstance(odd[0].test.left.left, ast.Name) else None
+    halves = [s_ for s_ in lp.body if isinstance(s_, ast.Assign) and any(isinstance(c, ast.Call) and norm(c.func) == "np.floor" for c in ast.walk(s_.value))]
+    hl = [norm(expand_in(lp, c.args[0], (ARR,))) for s_ in halves for c in ast.walk(s_.value) if isinstance(c, ast.Call) and norm(c.func) == "np.floor"]
+    ctx.ob(R, f.qname, "the axis length is read from the running array", bool(hl) and all(h == want_len for h in hl),
+           f"half length computed from {hl}: after the first coarsened axis or level the running array is shorter than the original image", al or lp)
     ctx.floor(R, 1)
 
 
